@@ -217,3 +217,65 @@ def check_spaninfo(r, lexpr, thorough=False):
     r.floor("spaninfo-clone-cases", n)
     r.floor("spaninfo-clone-decided", n - und)
     return n
+
+
+def check_cons_eq(r, lexpr):
+    """Cons::eq over pairs of structural chains: equal exactly when the chains have the same length, the same elements
+    in order and the same tail.  A hand-written loop over two chains has its own ways to be wrong (stopping at the end
+    of the shorter one, skipping the tail).  Cases with small n, not all lists."""
+    fn = lexpr.fn("<cons::Cons as std::cmp::PartialEq>::eq")
+    if fn is None:
+        r.anchor_missing("impl PartialEq for Cons")
+        return 0
+    if fn.derived:
+        r.ok("PartialEq for Cons is derived: structural by construction", fn)
+        return 0
+    B = lambda x: alist.mk(lexpr, "Bool", x)
+    C = lambda x: alist.mk(lexpr, "Char", x)
+    nil = lambda: alist.mk(lexpr, "Nil")
+
+    def chain(elems, tail):
+        return alist.lst(lexpr, [B(e) if e in (0, 1) else C(e) for e in elems], tail() if tail else None)
+
+    cases = [
+        ("(#f #t #f) and (#f #t #f)", ([0, 1, 0], None), ([0, 1, 0], None), True),
+        ("(#f #t #f) and (#f #t)", ([0, 1, 0], None), ([0, 1], None), False),
+        ("(#f #t) and (#f #t #f)", ([0, 1], None), ([0, 1, 0], None), False),
+        ("(#f) and (#f #t #f #t)", ([0], None), ([0, 1, 0, 1], None), False),
+        ("(#f #t) and (#f #f)", ([0, 1], None), ([0, 0], None), False),
+        ("(#t #t) and (#f #t)", ([1, 1], None), ([0, 1], None), False),
+        ("(#f #t . #nil) and (#f #t)", ([0, 1], nil), ([0, 1], None), False),
+        ("(#f #t) and (#f #t . #nil)", ([0, 1], None), ([0, 1], nil), False),
+        ("(#f #t . #nil) and (#f #t . #nil)", ([0, 1], nil), ([0, 1], nil), True),
+        ("(#f . #t) and (#f . #f)", ([0], lambda: B(1)), ([0], lambda: B(0)), False),
+        ("(#\\a #f) and (#\\a #f)", ([0x61, 0], None), ([0x61, 0], None), True),
+        ("(#\\a #f) and (#\\b #f)", ([0x61, 0], None), ([0x62, 0], None), False),
+    ]
+    n = und = 0
+    for name, (e1, t1), (e2, t2), want in cases:
+        a, b = chain(e1, t1), chain(e2, t2)
+        S = alist.make_sim(lexpr)
+        S.structural_box = True
+        S.structural_vec = True
+        S.inline = lambda x, g: g.crate == lexpr.name and (any(g.file.endswith(f) for f in ("value/mod.rs", "cons.rs", "number.rs", "value/partial_eq.rs"))
+                                                           or (g.derived and g.impl_trait == "std::cmp::PartialEq"))
+        n += 1
+        try:
+            paths = [p for p in S.run(fn, args={1: Ref([a.fields[0]], 0, ()), 2: Ref([b.fields[0]], 0, ())}) if p.end == "return"]
+        except sim.Limit as e:
+            r.note("undecided: %s (%s)" % (name, e))
+            und += 1
+            continue
+        got = {p.ret if isinstance(p.ret, int) else "?" for p in paths}
+        if got == {int(want)}:
+            r.ok("%s compare %s" % (name, "equal" if want else "unequal"), fn)
+        elif not got or "?" in got or len(got) > 1:
+            r.note("undecided: %s gives %s" % (name, sorted(map(str, got))))
+            und += 1
+        else:
+            r.violation(fn.path, "list-eq:%s" % name.replace(" ", ""),
+                        "%s compare %s with the hand-written Cons::eq; lists are equal exactly when they have the same "
+                        "elements in the same order and the same tail" % (name, "equal" if not want else "unequal"), fn.loc())
+    r.floor("list-eq-cases", n)
+    r.floor("list-eq-decided", n - und)
+    return n
